@@ -16,11 +16,18 @@ func packWorld() {
 	envMkdir("/w/e", 0750, 100)
 	envWriteFile("/w/e/k", 0600, 400, "K")
 	envSymlink("/w/e/a", "/w/e/k", 100) // an absolute link that stays inside the external directory
+	envSymlink("/w/e/b", "k", 100)      // a relative link inside the external directory
+	envSymlink("/w/y", "x", 100)        // relative links next to the tree: to the external file ...
+	envSymlink("/w/z", "e", 100)        // ... and to the external directory
 	envMkdir("/w/e2", 0750, 100)         // a sibling whose name extends the allow-listed "../e"
 	envWriteFile("/w/e2/f", 0600, 400, "E2")
 	envMkdir("/w/out", 0755, 100)
 	envChdir("/w")
 }
+
+// packLinkMenu: link targets that leave the tree through another link (relative or absolute,
+// to a file or a directory), for runs with the linkMenu parameter.
+var packLinkMenu = []string{"../y", "../z", "../e/a", "/w/y", "../x", "../e", "../z/k", "../e/b"}
 
 type packNode struct {
 	path string
@@ -71,7 +78,13 @@ func packTree(n, nLink int) []packNode {
 			}
 			envWriteFile(p, perm, mtime, data)
 		case envLink:
-			t := verif.String("target", 0, nLink)
+			var t string
+			if verif.Param("linkMenu", 0) == 1 {
+				// longer targets than free bytes reach: chains of links outside the tree
+				t = packLinkMenu[verif.Choose("target.menu", len(packLinkMenu))]
+			} else {
+				t = verif.String("target", 0, nLink)
+			}
 			verif.Assume(noNUL(t) && t != "")
 			envSymlink(p, t, mtime)
 		}
@@ -109,13 +122,40 @@ func HarnessPack() {
 		// containing it (or a link cycle) recurses without bound
 		verif.Known("KF-C19-deref-cycle", packDerefCycle(nodes))
 	}
+	if verif.Param("prior", 0) == 1 {
+		// the same Packer has already packed another tree (root /w/q/r: a file and an in-tree link)
+		envMkdir("/w/q", 0755, 100)
+		envMkdir("/w/q/r", 0755, 100)
+		envWriteFile("/w/q/r/f", 0644, 1000, "PRIOR")
+		envSymlink("/w/q/r/l", "f", 1000)
+	}
 	envBaseline()
+	if verif.Param("prior", 0) == 1 {
+		_, perr := p.Pack("/w/q/r", envWriter())
+		verif.Assume(perr == nil)
+		envTarResetOutput()
+		verif.Reach("packer-used-before")
+	}
 	meta, err := p.Pack(packSrc, envWriter())
 	verif.ObserveBool("ok", err == nil)
 	if err != nil {
 		verif.Reach("pack-error")
 		// C05: without dereferencing, an out-of-tree link makes Pack fail with an illegal-slug error;
 		// any other failure needs a reason visible in the tree (dangling dereference etc.)
+		if !p.dereference && len(p.allowSymlinkTargets) == 0 {
+			// C02: a tree all of whose links point (lexically, from their own directory) inside the
+			// tree is packable; without dereferencing nothing else in these trees can make Pack fail
+			allIn := true
+			for _, n := range nodes {
+				if n.kind == envLink {
+					where := refLinkTarget(packSrc, n.path[len(packSrc)+1:], envReadlink(n.path))
+					if !refHasPrefix(where, refPush(nil, packSrc)) {
+						allIn = false
+					}
+				}
+			}
+			verif.Assert("C02-tree-with-in-tree-links-packs", !allIn)
+		}
 		return
 	}
 	verif.Reach("pack-ok")
@@ -283,4 +323,44 @@ func HarnessC05Reuse() {
 			verif.Assert("C05-out-of-tree-link-stored-only-if-allow-listed", refHasPrefix(where, []string{"w", "q", "r"}) || refHasPrefix(where, []string{"w", "q", "e"}))
 		}
 	}
+}
+
+// HarnessC19DeepTree: a directory chain whose absolute path outgrows PATH_MAX (each name 255
+// bytes): the walk meets an entry it can list but not stat. Pack has to return (an error is
+// fine); a panic is the violation.
+func HarnessC19DeepTree() {
+	packWorld()
+	name := ""
+	for i := 0; i < 255; i++ {
+		name += "d"
+	}
+	envDeepDirs(packSrc, name, verif.Param("levels", 17))
+	p := packOptions()
+	envBaseline()
+	_, err := p.Pack(packSrc, envWriter())
+	verif.Reach("deep-tree-walked")
+	verif.ObserveBool("ok", err == nil)
+}
+
+// HarnessC19ExtCycle: dereferencing a link that leads into a cycle of links between two
+// directories outside the tree (/w/c/a/toB -> b, /w/c/b/toA -> a; relative or absolute). Pack has
+// to return; running out of stack or steps is the violation.
+func HarnessC19ExtCycle() {
+	packWorld()
+	envMkdir("/w/c", 0755, 100)
+	envMkdir("/w/c/a", 0755, 100)
+	envMkdir("/w/c/b", 0755, 100)
+	envWriteFile("/w/c/a/f", 0644, 100, "A")
+	envWriteFile("/w/c/b/g", 0644, 100, "B")
+	envSymlink("/w/c/a/toB", []string{"../b", "/w/c/b", "../../c/b"}[verif.Choose("toB", 3)], 100)
+	envSymlink("/w/c/b/toA", []string{"../a", "/w/c/a", "..", "toA"}[verif.Choose("toA", 4)], 100)
+	envSymlink("/w/s/l", []string{"../c/a", "/w/c/a", "../c/b", "../c", "../c/a/toB"}[verif.Choose("entry", 5)], 1000)
+	p := &Packer{dereference: true}
+	if verif.Bool("ignore") {
+		p.applyTerraformIgnore = true
+	}
+	envBaseline()
+	_, err := p.Pack(packSrc, envWriter())
+	verif.Reach("ext-cycle-packed")
+	verif.ObserveBool("ok", err == nil)
 }
